@@ -85,6 +85,11 @@ TINY = Fraction(1, 2 ** 1000)
 def to_data(d):
     if isinstance(d, list):
         return tuple(to_data(x) for x in d)
+    if isinstance(d, dict):
+        # number types other than int / float
+        if "Dec" in d:
+            return decimal.Decimal(d["Dec"])
+        return Fraction(d["Frac"][0], d["Frac"][1])
     return d
 
 
@@ -146,6 +151,15 @@ def rand_scalars(rng, n, mode):
                 out.append(-x)
         rng.shuffle(out)
         return out[:n]
+    if mode == "decimal":
+        return [{"Dec": rng.choice(["0.1", "0.2", "0.3", "1.25", "-7", "1E+3", "2.50", "0",
+                                    "%d.%03d" % (rng.randint(-99, 99), rng.randint(0, 999))])}
+                for _ in range(n)]
+    if mode == "fraction":
+        return [{"Frac": [rng.randint(-20, 20), rng.choice([1, 2, 3, 7, 10, 64])]}
+                for _ in range(n)]
+    if mode == "bool":
+        return [rng.choice([True, False, True, 1, 0, 2]) for _ in range(n)]
     if mode == "vmc":
         kind = rng.random()
         if kind < 0.5:
@@ -193,7 +207,11 @@ def rand_values(rng, er, n, histories=False):
     with_ctx = rng.choice(["none", "all", "some", "some"])
     scale = (er[0] == "graph" and histories and rng.random() < 0.25)
     if dom == "scalar":
-        datas = rand_scalars(rng, n, rng.choice(SCALAR_MODES))
+        modes = list(SCALAR_MODES)
+        if (er[0] == "sum" and not er[1]) or (er[0] == "mean" and er[1] != "dsum"):
+            # "Python's sum" / "sum/count" hold for every number type Python can add
+            modes += ["decimal", "fraction", "bool"]
+        datas = rand_scalars(rng, n, rng.choice(modes))
     elif dom == "vmc":
         datas = rand_scalars(rng, n, "vmc")
     elif dom == "any":
@@ -306,6 +324,8 @@ def build(er, default_start=False):
     if k == "vecnr":
         # inner accumulator without a reset method (FillCompute adapter)
         return lena.math.Vectorize(lena.core.FillCompute(lena.math.Sum()), dim=er[1])
+    if k == "storeflat":
+        return lena.flow.StoreFilled(yield_as_a_group=False)
     if k == "store":
         return lena.flow.StoreFilled(yield_as_a_group=True) if er[1] else \
             lena.flow.StoreFilled(yield_as_a_group=False)
@@ -366,8 +386,9 @@ def label(er):
 
 
 def rand_inner(rng):
+    # "storeflat": a component that yields several results per compute() (one per value)
     return rng.choice([["sum", 0], ["dsum", 0], ["mean", None, True], ["count", "count", 0],
-                       ["mean", "dsum", True]])
+                       ["mean", "dsum", True], ["storeflat"]])
 
 
 def rand_elem(rng, for_history=False):
@@ -508,13 +529,42 @@ def snap(v):
     return ["R", repr(v)]
 
 
-def outcome(thunk):
-    """('ok', outputs, snapshot) or ('exc', exception, name)."""
+def outcome(thunk, hostile=False):
+    """('ok', outputs, snapshot) or ('exc', exception, name).  *hostile*: a streaming consumer
+    that keeps a deep copy of every result as received and then changes the received context
+    in place at every level before asking for the next result (what a downstream
+    UpdateContext / MakeFilename / Variable does); the copies are what is judged."""
     try:
-        outs = list(thunk())
+        if hostile:
+            outs = []
+            for o in thunk():
+                outs.append(copy.deepcopy(o))
+                if gen.has_ctx(o):
+                    _poison(o[1])
+        else:
+            outs = list(thunk())
     except Exception as e:  # pylint: disable=broad-except
         return ("exc", e, type(e).__name__)
     return ("ok", outs, [snap(o) for o in outs])
+
+
+def _poison(ctx):
+    from rv.monitors import identity
+    for o in list(identity.mutable_ids(ctx).values()):
+        if isinstance(o, dict):
+            o["__changed_downstream__"] = 1
+        elif isinstance(o, list):
+            o.append("__changed_downstream__")
+
+
+def yields_filled_values(er):
+    """StoreFilled / GroupBy (also inside FillRequest): the results ARE the filled values, a
+    consumer changing them would change the input of the next expectation."""
+    if er[0] in ("store", "groupby"):
+        return True
+    if er[0] in ("fr", "frseq"):
+        return yields_filled_values(er[1])
+    return False
 
 
 def results_method(el):
@@ -611,7 +661,17 @@ def sum_check(xs, start):
     allint = all(isinstance(x, int) for x in xs) and isinstance(start, int)
     exact = sum((Fraction(x) for x in xs), Fraction(start))
     if allint:
+        # bools are ints: Python's sum of them is an int
         return d_exact(int(exact))
+    if all(isinstance(x, (int, Fraction)) for x in list(xs) + [start]) or \
+            all(isinstance(x, (int, decimal.Decimal)) for x in list(xs) + [start]):
+        # exact number types: Python's sum is exact (Decimal: within the default 28 digits)
+        def chk(d):
+            if isinstance(d, bool) or not isinstance(d, (int, Fraction, decimal.Decimal)) \
+                    or Fraction(d) != exact:
+                return ("value", "got %r, the exact sum is %s" % (d, exact))
+            return None
+        return chk
     mag = sum((abs(Fraction(x)) for x in xs), abs(Fraction(start)))
     return d_approx(exact, (len(xs) + 1) * EPS * mag + TINY)
 
@@ -727,6 +787,11 @@ def expect(er, vals, values=None):
                 return None
             outs.append(m_with_ctx(dchk, ctx))
         return Expect(outs=outs)
+    if k == "storeflat":
+        # only as a component of Vectorize (bare data): every filled datum, in order
+        return Expect(outs=[(lambda d, x=x: None if (d == x and type(d) is type(x)) else
+                             ("value", "got %r, expected the filled datum %r" % (d, x)))
+                            for x in xs])
     if k == "store":
         if er[1]:
             def chk(out):
@@ -874,7 +939,8 @@ def run_agg(r, obs):
     obs.count("elements_built", 2)
     # (a) incremental: after every prefix
     values = []
-    res = outcome(results_method(el))
+    hostile = not yields_filled_values(er)
+    res = outcome(results_method(el), hostile)
     check_against(er, [], [], res, obs, "incremental, before any fill")
     for i, vr in enumerate(vals):
         v = mkval(vr)
@@ -886,13 +952,15 @@ def run_agg(r, obs):
                      "%s.fill(%r) raised %r" % (lab, vr, e))
             return
         obs.count("fills")
-        res = outcome(results_method(el))
+        res = outcome(results_method(el), hostile)
+        if hostile:
+            obs.count("computes_consumed_by_a_context_changing_consumer")
         check_against(er, vals[:i + 1], values, res, obs, "incremental")
     # (b) pure: all fills, then one compute
     values = [mkval(vr) for vr in vals]
     for v in values:
         el2.fill(v)
-    res = outcome(results_method(el2))
+    res = outcome(results_method(el2), hostile)
     check_against(er, vals, values, res, obs, "single compute")
 
 
